@@ -233,6 +233,39 @@ final_cb(tpt_p tpt, void *udata) {
 	atomic_store(&g_done_flag, 1);
 }
 
+static void peer_write(const uint8_t *p, size_t n);
+/* fragment writer shared by the main thread and the recv() hook */
+static pthread_mutex_t g_piece_lock = PTHREAD_MUTEX_INITIALIZER;
+static size_t g_piece_next, g_piece_sent_idx;
+static atomic_int g_inject_active;
+static int
+write_next_piece(void) {
+	uint8_t piece[4096];
+	size_t k, len;
+	int done = 0;
+
+	pthread_mutex_lock(&g_piece_lock);
+	if (g_piece_next < g_scn->npieces) {
+		len = g_scn->pieces[g_piece_next].len;
+		for (k = 0; k < len; k ++)
+			piece[k] = c16_pattern(g_piece_sent_idx ++);
+		peer_write(piece, len);
+		g_piece_next ++;
+		done = 1;
+	}
+	pthread_mutex_unlock(&g_piece_lock);
+	return (done);
+}
+/* threadpool_task.c of this unit is compiled with -Drecv=verif_recv */
+ssize_t
+verif_recv(int fd, void *buf, size_t len, int flags) {
+	ssize_t r = recv(fd, buf, len, flags);
+
+	if (r > 0 && 0 != atomic_load(&g_inject_active))
+		(void)write_next_piece(); /* the next fragment arrives before the handler reads again */
+	return (r);
+}
+
 static void
 peer_write(const uint8_t *p, size_t n) {
 	size_t off = 0;
@@ -276,6 +309,7 @@ c16_run(const c16_scn *scn, c16_out *out) {
 	atomic_store(&g_ntimeout, 0);
 	atomic_store(&g_paused, 0);
 	atomic_store(&g_cb_while_paused, 0);
+	atomic_store(&g_inject_active, 0);
 	tp_harness_reset(&scn->plans);
 	g_close_unknown_passthrough = 1; /* tasks close descriptors their owner created */
 	tp_res_get(&rs0);
@@ -341,7 +375,34 @@ c16_run(const c16_scn *scn, c16_out *out) {
 	last_arrival = now_us();
 	out->run_us = last_arrival;
 
-	if (0 == scn->dir) {
+	if (0 == scn->dir && scn->inject_on_recv) {
+		/* first fragment from here, the others from inside the library's recv() calls; whatever is left when the task
+		 * stops reading (or after a moment) is written from here again */
+		pthread_mutex_lock(&g_piece_lock);
+		g_piece_next = scn->prequeue;
+		g_piece_sent_idx = sent_idx;
+		pthread_mutex_unlock(&g_piece_lock);
+		atomic_store(&g_inject_active, 1);
+		(void)write_next_piece();
+		for (waited = 0; waited < 60 && 0 == atomic_load(&g_stopped); waited ++) {
+			pthread_mutex_lock(&g_piece_lock);
+			i = g_piece_next;
+			pthread_mutex_unlock(&g_piece_lock);
+			if (i >= scn->npieces)
+				break;
+			usleep(500);
+		}
+		atomic_store(&g_inject_active, 0);
+		while (write_next_piece())
+			;
+		last_arrival = now_us();
+		if (1 == scn->end) {
+			close(g_sp[1]);
+			g_sp[1] = -1;
+		} else if (2 == scn->end) {
+			shutdown(g_sp[1], SHUT_WR);
+		}
+	} else if (0 == scn->dir) {
 		for (i = scn->prequeue; i < scn->npieces; i ++) {
 			size_t k;
 			if (2 == scn->pieces[i].pause) {
